@@ -6,7 +6,9 @@ C19's first guard runs admissibility in the CONVERSE direction ("pool r was used
 could host the pod"), so this alphabet is restricted to what WeightsGuards.tla: FeasibleFresh models
 EXACTLY (DESIGN 2.5):
 
-  * no inter-pod constraints and no volumes anywhere in the scenario; preferred node affinity with distinct weights (Karpenter schedules
+  * no inter-pod constraints anywhere in the scenario; volumes with a zone topology (bound PV with one or two node-affinity terms,
+    StorageClass with two allowed topologies, two volumes): FeasibleFresh asks for SOME combination of alternatives that works, and judges
+    the instance-type set (minValues) per combination, as a NodeClaim commits to one; preferred node affinity with distinct weights (Karpenter schedules
     the heaviest preference as if required and relaxes it away - FeasibleFresh reads the pod the same way);
   * a pod constrains every label key at most once (node selector, ONE expression of its required term or ONE preferred term), so
     the known representation losses of Karpenter's requirement algebra (C12 findings: contradictory In sets,
@@ -63,6 +65,14 @@ def gen_catalog(rng):
             # a very expensive offering on an otherwise cheap type (ranking by the DEAREST offering reorders)
             rng.choice(t["offerings"])["price"] = 9000
         types.append(t)
+    if rng.random() < 0.3:
+        # a zone-wide outage: nothing can be launched in that zone although every requirement still admits it (a pod with several
+        # volume-topology alternatives must get past the alternative that names the dead zone)
+        z = rng.choice(ZONES)
+        for t in types:
+            for o in t["offerings"]:
+                if o["zone"] == z:
+                    o["available"] = False
     return types
 
 
@@ -233,13 +243,18 @@ def archetypes(rng, types, pools):
         if len({x["weight"] for x in p["pref"]}) != len(p["pref"]):
             p["pref"][-1]["weight"] = max(x["weight"] for x in p["pref"]) + 1
         return key
+    def vol_b(p): p["vols"] = ["c-b"]; return "#vol"            # bound PV, zone b
+    def vol_ac(p): p["vols"] = ["c-ac"]; return "#vol"          # bound PV with two node-affinity terms: zone a | zone c
+    def vol_ab(p): p["vols"] = ["c-ab"]; return "#vol"          # unbound, StorageClass with two allowed topologies: zone a | zone b
+    def vol_any(p): p["vols"] = [rng.choice(["c-any", "c-any2"])]; return "#vol"
+    def vol_two(p): p["vols"] = rng.choice([["c-ab", "c-ac"], ["c-ac", "c-ab"], ["c-ab", "c-any"]]); return "#vol"
     def tolerate(p): p["tol"] = [dict(sc.TOL_TAINT, effect=rng.choice(["NoSchedule", "NoSchedule", "", "NoExecute"]))]; return "#tol"
     def tolerate_all(p): p["tol"] = [dict(sc.TOL_ALL)]; return "#tol"
     def port80(p): p["ports"] = [{"port": 80, "ip": "", "proto": "TCP"}]; return "#port"
     def port9100(p): p["ports"] = [{"port": 9100, "ip": "", "proto": "TCP"}]; return "#port"
     return [sel_zone, term_zone, zone_notin, notin_spot, sel_ct, team_in, team_sel, team_notin, team_dne, team_exists, gen_gt, gen_lt, gen_in,
             arch_in, it_sel, it_notin, pool_sel, pool_notin, tolerate, tolerate, tolerate_all, tolerate_all, port80, port9100, pref_one, pref_one,
-            pref_one]
+            pref_one, vol_b, vol_ac, vol_ac, vol_ab, vol_ab, vol_any, vol_two]
 
 
 def gen_pod(rng, name, arch, big):
@@ -276,7 +291,8 @@ def explore(rng, name="w"):
             "workers": rng.choice([1, 2, 8]), "maxTypes": rng.choice([0, 1, 2, 2, 3]), "create": True, "deadlineAfter": 0}
     if rng.random() < 0.12:
         opts["deadlineAfter"] = rng.randrange(1, len(pods) + 1)      # the Solve deadline expires right after that many pods were placed
-    return {"name": name, "options": opts, "types": types, "pools": pools, "nodes": nodes, "ds": dss, "scs": [], "pvs": [], "pvcs": [],
+    scs, pvs, pvcs = sc.gen_storage(rng)
+    return {"name": name, "options": opts, "types": types, "pools": pools, "nodes": nodes, "ds": dss, "scs": scs, "pvs": pvs, "pvcs": pvcs,
             "pods": bound + pods}
 
 
@@ -302,7 +318,8 @@ def _pool(name, weight, **kw):
 def _scn(name, types, pools, pods, ds=(), nodes=(), **opts):
     o = {"preference": "Respect", "minValues": "Strict", "reserved": "strict", "workers": 1, "maxTypes": 0, "create": True, "deadlineAfter": 0}
     o.update(opts)
-    return {"name": name, "options": o, "types": types, "pools": pools, "nodes": list(nodes), "ds": list(ds), "scs": [], "pvs": [], "pvcs": [],
+    scs, pvs, pvcs = sc.gen_storage(None)
+    return {"name": name, "options": o, "types": types, "pools": pools, "nodes": list(nodes), "ds": list(ds), "scs": scs, "pvs": pvs, "pvcs": pvcs,
             "pods": pods}
 
 
@@ -320,6 +337,10 @@ def cells():
     # 3. limits: the heaviest pool can afford one small node only; the second pod of the batch falls back
     out.append(_scn("cell/limit-fallback", [small, large], [_pool("p0", 50, limits={"cpu": 2000, "mem": 0, "nodes": -1}), _pool("p1", 10)],
                     [pod("w0", 1900), pod("w1", 1900), pod("w2", 1900)]))
+    # 3b. limits are charged with the largest type the NodeClaim CAN BECOME (the pods pin the small type), not with the largest type of the
+    #     pool: three small nodes fit the heaviest pool's limit
+    out.append(_scn("cell/limit-charged-with-narrowed-claim", [small, large], [_pool("p0", 50, limits={"cpu": 10000, "mem": 0, "nodes": -1}), _pool("p1", 10)],
+                    [pod("w%d" % i, 1900, sel={"it": "s"}) for i in range(3)]))
     # 4. requirement fallback per pod: the heaviest pool is zone a only
     out.append(_scn("cell/zone-fallback", [small, large],
                     [_pool("p0", 10, reqs=[{"key": "zone", "op": "In", "vals": ["a"], "n": 0, "min": 0}]), _pool("p1", 1)],
@@ -361,7 +382,25 @@ def cells():
     for s in out:
         for w in (1, 2, 8):
             res.append(sc.with_options(s, {"workers": w}, "k%d" % w))
-    return res + truncation_cells() + round2_cells()
+    return res + truncation_cells() + round2_cells() + volume_cells()
+
+
+def volume_cells():
+    """volume-topology alternatives vs weight: the heavier pool cannot launch anything in the zone of the pod's EARLIER alternative (offering
+    unavailable / no offering there) but can in a later one; bound PV with two terms (a | c), StorageClass with two topologies (a | b), two
+    volumes; the lighter pool either shares the outage (the pod must still land on the heavier one) or could take the pod in the dead zone."""
+    out = []
+    pod = lambda n, cpu=500, **kw: dict(sc.plain_pod(n, cpu, 256), **kw)
+    for dead in ("unavailable", "absent"):
+        offs = lambda zs: [_off(z, "od", 100, av=not (z == "a" and dead == "unavailable")) for z in zs if not (z == "a" and dead == "absent")]
+        hv = _type("hv", 4000, 8192, offs(["a", "b", "c"]))        # nothing launchable in zone a
+        lt = _type("lt", 4000, 8192, [_off("a", "od", 90), _off("b", "od", 90), _off("c", "od", 90)])
+        for vols in (["c-ac"], ["c-ab"], ["c-ab", "c-any"], ["c-ac", "c-any2"]):
+            for shared in (True, False):
+                pools = [_pool("p0", 10, types=["hv"]), _pool("p1", 1, types=["hv"] if shared else ["lt"])]
+                out.append(_scn("cell/volume-alternatives/%s-%s-%s" % (dead, "+".join(vols), "shared" if shared else "lighter-has-zone-a"),
+                                [hv, lt], pools, [pod("w0", 1000, vols=vols), pod("w1", 1000)]))
+    return out
 
 
 def round2_cells():
@@ -431,7 +470,7 @@ def truncation_cells():
 MAP_FIELDS = {"labels", "sel"}
 OPTION_GRID = [{"minValues": mv, "maxTypes": mt, "workers": w} for mv in ("Strict", "BestEffort") for mt in (0, 1, 2) for w in (1, 2, 8)]
 ALL_WEAK = ["order", "lowest", "ready", "chargeSum", "truncFirst", "rankDearest", "rankUnavailable", "truncMin", "ovhPerPod", "ovhNone",
-            "staleHash", "simKeys", "noStartup", "noRelax", "truncMinOrder", "ovhByName", "hashSecond", "noFinalize"]
+            "staleHash", "simKeys", "noStartup", "noRelax", "truncMinOrder", "ovhByName", "hashSecond", "noFinalize", "chargeTemplate", "volShared"]
 INVS = ("Inv_C19_HighestWeightFeasible", "Inv_C19_CheapestPrefix", "Inv_C13_TypesSubsetMinValues", "Inv_C13_Requests", "Inv_C13_Template")
 # fidelity classes that were analysed on the unchanged tree and are NOT model gaps (see the C19 notes in the manifest)
 EXPLAINED_FIDELITY = {("Fid_C19_Chosen", "chosen-pool-node-limit-exhausted-for-spec")}
@@ -475,7 +514,7 @@ def run_driver(run, scenarios, tag, procs):
 
 def replay_and_validate(run, scenarios, tag, procs, par):
     """driver + Weights_Trace.tla; returns (violations of every guard, per-trace case records, driver summaries).
-    Drift_* entries (the trace and the scenario / the spec's bookkeeping disagree: harness problem) end the check with exit 2."""
+    Drift_* entries (harness problems) end the check with exit 2 - unless a verdict guard failed (a verdict is never pre-empted)."""
     import json
     import vlib
     files, sums, hook = run_driver(run, scenarios, tag, procs)
@@ -485,9 +524,14 @@ def replay_and_validate(run, scenarios, tag, procs, par):
     if bad:
         raise vlib.InfraError("driver could not materialise %d scenarios, e.g. %s" % (len(bad), bad[0]))
     viol = run.validate("Weights_Trace", "Weights_Trace.cfg", files, par=par, timeout=3000)
+    # Drift_* = only things the HARNESS can get wrong (a Created event without its Results claim).  It never pre-empts a verdict: exit 2
+    # only when no verdict guard failed on these traces.  Figures computed by Karpenter (its own remaining limits) are Obs_* notes.
     drift = [v for v in viol if str(v.get("guard", "")).startswith("Drift_")]
     if drift:
-        raise vlib.InfraError("trace and specification disagree on bookkeeping (harness problem, no verdict): %s" % drift[:3])
+        run.viol = [v for v in run.viol if not str(v.get("guard", "")).startswith("Drift_")]
+        if not any(v.get("guard") in run.pmap for v in viol):
+            raise vlib.InfraError("trace and scenario disagree (harness problem, no verdict): %s" % drift[:3])
+        run.notes.append("harness drift beside a verdict (not judged): %s" % drift[:3])
     cases = []
     for f in files:
         cases += json.load(open(f + ".viol.json")).get("cases", [])
